@@ -221,10 +221,17 @@ def gen_c10_extra(ctx, thorough):
             steps = req(5) + ([finish(5, kind='stream', n=100000)] if handler_done_first else []) + [{"op": "burst", "steps": [off] + burst}]
             steps += ([] if handler_done_first else [finish(5, n=2)]) + [{"op": "expectreturn", "ms": 2500}]
             out.append({'tag': 'trailsl-' + name, 'cfg': {'maxConc': 4}, 'steps': steps})
+    # connection errors only the stream loop can find, while the peer is not reading but goes on sending
+    for name, off in (('wuover-sl', {"op": "wu", "sid": 0, "inc": MAXWIN}), ('iw-overflow-sl', {"op": "settings", "pairs": [[4, MAXWIN]]})):
+        steps = [{"op": "settings", "pairs": [[4, 10000000]]}, {"op": "wu", "sid": 0, "inc": 10000000}] + req(5) + req(9) + \
+                [{"op": "wu", "sid": 5, "inc": 1000}, {"op": "stopread"}, finish(9, kind='stream', n=1000000), {"op": "settle"}, off,
+                 {"op": "burst", "steps": [{"op": "ping", "n": i} for i in range(50)]}, {"op": "settle"}, finish(5), {"op": "expectreturn", "ms": 3000}]
+        out.append({'tag': 'noread-' + name, 'cfg': {'maxConc': 4, 'outCap': 8192}, 'steps': steps})
+    for name, off in ():
         # the peer has stopped reading (its receive buffer is full of a large response) when the stream loop
         # ends the connection, and it goes on sending frames the read loop answers in place
         steps = [{"op": "settings", "pairs": [[4, 10000000]]}, {"op": "wu", "sid": 0, "inc": 10000000}] + req(5) + req(9) + \
-                [{"op": "stopread"}, finish(9, kind='stream', n=3000000), {"op": "settle"}, off,
+                [{"op": "stopread"}, finish(9, kind='stream', n=1000000), {"op": "settle"}, off,
                  {"op": "burst", "steps": [{"op": "ping", "n": i} for i in range(50)]}, {"op": "settle"}, {"op": "expectreturn", "ms": 3000}]
         out.append({'tag': 'trailsl-noread-' + name, 'cfg': {'maxConc': 4, 'outCap': 8192}, 'steps': steps})
         steps = req(5) + [{"op": "stopread"}, off, {"op": "burst", "steps": burst}, {"op": "settle"}, {"op": "expectreturn", "ms": 3000}]
@@ -380,6 +387,15 @@ def gen_c14_extra(ctx, thorough):
         steps.append({"op": "burst", "steps": [{"op": "data", "sid": sid, "n": 16000, "es": False, "pad": -1} for _ in range(12)]})
     steps += req(201) + [finish(201, n=1)]
     out.append({'tag': 'rejected-bodies', 'cfg': {'maxConc': 4, 'maxBody': 20000}, 'steps': steps})
+    # every stream's single DATA frame is the one that crosses the limit (and is dropped): more of them than
+    # the whole connection window (65535 + 4 MiB) must still leave the sender with credit
+    steps = []
+    for i in range(330 if thorough else 300):
+        sid = 1 + 2 * i
+        steps.append({"op": "burst", "steps": [{"op": "hdr", "sid": sid, "fields": hdrs(sid, "POST"), "es": False, "pad": -1},
+                                               {"op": "data", "sid": sid, "n": 16000, "es": False, "pad": -1}]})
+    steps += req(1001) + [finish(1001, n=1)]
+    out.append({'tag': 'rejected-first-frame', 'cfg': {'maxConc': 4, 'maxBody': 1000}, 'steps': steps})
     # interleaved uploads on three streams, one of them reset by the peer half way
     steps = [{"op": "hdr", "sid": s, "fields": hdrs(s, "POST"), "es": False, "pad": -1} for s in (1, 3, 5)]
     for rnd in range(60):
@@ -436,8 +452,27 @@ def gen_c17_extra(ctx, thorough):
         tail = rng.choice([[{"op": "close"}], [{"op": "stopread"}, {"op": "settle"}, {"op": "close"}], [{"op": "failwrites", "after": rng.randrange(0, 200)}] ])
         pre = [{"op": "failwrites", "after": rng.randrange(0, 300)}] if rng.random() < 0.2 else []
         out.append({'tag': 'mutant', 'cfg': {'maxConc': 4, 'outCap': rng.choice([0, 0, 64, 1024])}, 'steps': pre + s + tail + fin})
+    # frames on streams that ended in each possible way, then more traffic, then the peer goes away
+    late = [{"op": "data", "sid": 1, "n": 3, "es": False, "pad": -1}, {"op": "data", "sid": 1, "n": 0, "es": True, "pad": 2},
+            {"op": "hdr", "sid": 1, "fields": [["x-late", "1"]], "es": True, "pad": -1}, {"op": "cont", "sid": 1, "eh": True},
+            {"op": "wu", "sid": 1, "inc": 5}, {"op": "rst", "sid": 1, "code": 8}, {"op": "prio", "sid": 1, "prio": {"dep": 0, "excl": False, "weight": 1}}]
+    endings = {'answered': req(1) + [finish(1, n=3)],
+               'peer-reset': [{"op": "hdr", "sid": 1, "fields": hdrs(1, "POST"), "es": False, "pad": -1}, {"op": "rst", "sid": 1, "code": 8}],
+               'server-reset': [{"op": "hdr", "sid": 1, "fields": hdrs(1, "POST", [["X-Bad", "1"]]), "es": False, "pad": -1}],
+               'refused': req(1)[:0] + [{"op": "hdr", "sid": 1, "fields": hdrs(1, "POST", [["te", "gzip"]]), "es": True, "pad": -1}]}
+    for name, pre in endings.items():
+        for fr in late:
+            steps = pre + [fr] + req(3) + [finish(3, n=2), {"op": "ping", "n": 1}, {"op": "close"}]
+            out.append({'tag': 'late-' + name, 'cfg': {'maxConc': 4}, 'steps': steps})
+    # more handlers running than the completion queue holds when the peer disconnects
+    for nh in (140, 200):
+        steps = []
+        for i in range(nh):
+            steps += req(1 + 2 * i)
+        steps += [{"op": "close"}]
+        out.append({'tag': 'many-handlers', 'cfg': {'maxConc': 300}, 'steps': steps})
     # peer stops reading while large responses are pending, then disconnects with handlers running
-    for n in (100000, 2000000):
+    for n in (100000, 2000000, 3000000, 6000000):      # the larger ones overflow the 128-frame write queue
         steps = [{"op": "settings", "pairs": [[4, 10000000]]}, {"op": "wu", "sid": 0, "inc": 10000000}] + req(1) + req(3) + [{"op": "stopread"}, finish(1, n=n, kind='stream'), {"op": "settle"}, {"op": "close"}, finish(3)]
         out.append({'tag': 'stopread', 'cfg': {'maxConc': 4, 'outCap': 8192}, 'steps': steps})
     return out
@@ -505,11 +540,14 @@ def gen_c20_from_lists(ctx, lists):
         if position != 'first':
             steps += req(1, extra=[["x-a", "b"], ["cookie", "a=b"]]) + [finish(1, n=2)]
         st = {"op": "hdr", "sid": 3, "fields": fields, "es": body == 0 and not trailers, "pad": -1}
-        if rng.random() < 0.3:
+        r0 = rng.random()
+        if r0 < 0.3:
             st["split"] = [rng.randrange(1, 30)]
+        elif r0 < 0.75 and len(fields) > 1:
+            st["splitf"] = sorted(set(rng.sample(range(1, len(fields)), min(len(fields) - 1, rng.choice([1, 1, 2])))))   # exactly on field boundaries
         steps.append(st)
         if body:
-            steps.append({"op": "data", "sid": 3, "n": body, "es": not trailers, "pad": -1})
+            steps.append({"op": "data", "sid": 3, "n": body, "es": not trailers, "pad": rng.choice([-1, -1, 0, 4])})
         if trailers:
             steps.append({"op": "hdr", "sid": 3, "fields": trailers, "es": True, "pad": -1})
         steps.append(finish(3, n=1))
@@ -531,6 +569,23 @@ FAM.update({
     'C20': dict(cfg=(None, None), budget=(0, 0), units=[1], hcfg=None, extra=None,
                 props={'C20', 'C09:connection-torn-down', 'C01:well-formed-request-not-dispatched', 'C01:handler-ran-twice'}),
 })
+
+
+def gen_c20_bodies(ctx, thorough):
+    """content-length against DATA as delivered: padding and empty frames do not count, every byte of data does."""
+    out = []
+    for n, chunks in ((3, None), (10, [4, 0, 6]), (20000, [16000, 4000]), (1, [0, 1, 0])):
+        for pad in (-1, 0, 4, 200):
+            for delta in (0, 1, -1, 1 + max(pad, 0), 5 + max(pad, 0)):
+                cl = n + delta
+                if cl < 0:
+                    continue
+                steps = req(1, extra=[["x-a", "b"]]) + [finish(1, n=1)]
+                steps += [{"op": "hdr", "sid": 3, "fields": hdrs(3, "POST", cl=cl), "es": False, "pad": -1},
+                          {"op": "data", "sid": 3, "n": n, "es": True, "pad": pad, **({"chunks": chunks} if chunks else {})}, finish(3, n=1)]
+                steps += req(5) + [finish(5, n=1)]
+                out.append({'tag': 'c20-body', 'cfg': {'maxConc': 4, 'noconnerr': True}, 'steps': steps})
+    return out
 
 
 def c20_lists(ctx, thorough):
@@ -573,7 +628,7 @@ def run(ctx, pid):
     if fam.get('extra'):
         scen += fam['extra'](ctx, thorough)
     if pid == 'C20':
-        scen += c20_lists(ctx, thorough)
+        scen += c20_lists(ctx, thorough) + gen_c20_bodies(ctx, thorough)
     for i, s in enumerate(scen):
         s['id'] = i + 1
     ctx.nontrivial = len({json.dumps(s['steps'], sort_keys=True) for s in scen if len(s['steps']) >= 2})
